@@ -1,6 +1,9 @@
 --------------------------- MODULE PermTrace ---------------------------
 (* C11 trace validation: one trace per implementation test = [row(op, p, sec, nb), outcome(...)].
    The row event fixes the table row, the outcome event must satisfy OutcomeOk for that row.
+   A trace may start with link(tr, evs): the link's security was produced by delivering those HCI security events
+   to the server's host on a connection of that transport; the row's security level is then SecAfter(tr, evs) of
+   Perm.tla, whatever the harness or the stack believes.
    disclosed / modified travel as 0 / 1.                                                      *)
 EXTENDS Perm, Sequences, Json, IOUtils, TLCExt
 
@@ -12,10 +15,14 @@ tvars == <<vars, tid, l>>
 T  == Traces[tid]
 Ev == T[l]
 
-RowOf(e) == [op |-> e.op, p |-> e.p, sec |-> e.sec, nb |-> e.nb]
+Linked == l > 1 /\ T[l - 1].e = "link"
+RowOf(e) == [op |-> e.op, p |-> e.p, sec |-> IF Linked THEN SecAfter(T[l - 1].tr, T[l - 1].evs) ELSE e.sec, nb |-> e.nb]
 OutOf(e) == [disclosed |-> e.disclosed = 1, modified |-> e.modified = 1, rsp |-> e.rsp, code |-> e.code]
 
-Act == \/ Ev.e = "row"     /\ SetRow(RowOf(Ev))
+Act == \/ Ev.e = "link"    /\ phase = "idle" /\ l = 1 /\ Ev.tr \in Transports
+                           /\ \A i \in 1..Len(Ev.evs) : Ev.evs[i] \in LinkEvents
+                           /\ UNCHANGED vars
+       \/ Ev.e = "row"     /\ SetRow(RowOf(Ev))
        \/ Ev.e = "outcome" /\ Observe(OutOf(Ev))
 
 Step == /\ l <= Len(T)
